@@ -1,6 +1,6 @@
 """C01 — auction correspondence; see auction_common.py"""
 import auction_common as ac
-from auction_common import impl_exec, nontrivial, classify  # noqa: F401
+from auction_common import impl_exec, impl_exec_multi, nontrivial, classify  # noqa: F401
 
 SHARDS = {'quick': 1, 'thorough': 16}
 TITLE = 'Auction accepts exactly the calls the Laws of bridge allow'
